@@ -316,6 +316,8 @@ def run(tier: str, seed: int) -> int:
     n = 700 if tier == "thorough" else 80
     cases = [cw.make_case(seed, i, tier=tier, size=("l" if i % 2 else "m"), dirty=[[], ["schema.extend"], [], ["frag.uses_variables"], []][i % 5]) for i in range(n)]
 
+    cases.extend(cw.scale_cases(PROP, tier))
+
     def on_result(case, res):
         r.add(case, res)
         if res.status != "inconclusive":
